@@ -148,6 +148,19 @@ impl<'a> IrEval<'a> {
                 }
                 last
             }
+            "intr" => {
+                // (intr Name ret (types...) args...): resolved signature, arguments left to right
+                let name = e.args()[0].atom();
+                let t = match &e.args()[2] {
+                    Sx::L(ts) => T::parse(ts.first()?.atom())?,
+                    _ => return None,
+                };
+                let mut vals = Vec::new();
+                for x in &e.args()[3..] {
+                    vals.push(self.eval(x, st, depth)?);
+                }
+                intr(name, t, &vals)
+            }
             "call" => {
                 let id: u32 = e.args()[0].atom().parse().ok()?;
                 let f = *self.funcs.get(&id)?;
@@ -333,6 +346,33 @@ impl<'a> IrEval<'a> {
                     Some(Flow::Ret(Some(v)))
                 }
             }
+            // labels are statements of their own in the IR; executed in sequence they do nothing
+            "case" | "default" => Some(Flow::Normal),
+            "switch" => {
+                // jump to the first matching `case`, else to `default`, else past the block; fall through until `break`
+                let v = self.eval(&x[1], st, depth)?;
+                let t = T::parse(x[0].atom())?;
+                let items = x[2].args();
+                // a label's constant is kept as written (usually an IntLiteral) and compared in the scrutinee's type
+                let mut start = None;
+                for (i, s) in items.iter().enumerate() {
+                    if s.head() == "case" && cast_val(t, ir_const(&s.args()[0])?)? == v {
+                        start = Some(i);
+                        break;
+                    }
+                }
+                let start = start.or_else(|| items.iter().position(|s| s.head() == "default"));
+                if let Some(i) = start {
+                    for s in &items[i..] {
+                        match self.exec(s, st, depth)? {
+                            Flow::Normal => {}
+                            Flow::Break => return Some(Flow::Normal),
+                            other => return Some(other),
+                        }
+                    }
+                }
+                Some(Flow::Normal)
+            }
             _ => None,
         }
     }
@@ -508,12 +548,30 @@ impl<'a> AstEval<'a> {
                 self.type_of(&x[1], fr)?;
                 c_type(x[0].atom())
             }
-            "call" => {
-                let f = *self.funcs.get(x[0].atom())?;
-                c_type(f.args()[1].atom())
-            }
+            "call" => match self.funcs.get(x[0].atom()) {
+                Some(f) => c_type(f.args()[1].atom()),
+                None => {
+                    // a built-in: applied at the common type of its arguments
+                    let b = builtin_of_hlsl_name(x[0].atom())?;
+                    Some(builtin_ret(b, self.args_type(&x[1..], fr)?))
+                }
+            },
             _ => None,
         }
+    }
+
+    fn args_type(&self, args: &[Sx], fr: &Frame) -> Option<T> {
+        let mut it = args.iter().rev();
+        let mut t = self.type_of(it.next()?, fr)?;
+        for a in it {
+            t = common(self.type_of(a, fr)?, t)?;
+        }
+        // all arguments literals: the built-in is resolved at int / float
+        Some(match t {
+            T::Lit => T::Int,
+            T::Flit => T::Float,
+            t => t,
+        })
     }
 
     fn read(&self, name: &str, fr: &Frame, gl: &HashMap<String, V>) -> Option<V> {
@@ -594,6 +652,15 @@ impl<'a> AstEval<'a> {
                     V::B(false) => self.eval_as(t, &x[2], fr, gl, depth),
                     _ => None,
                 }
+            }
+            "call" if !self.funcs.contains_key(x[0].atom()) => {
+                let b = builtin_of_hlsl_name(x[0].atom())?;
+                let t = self.args_type(&x[1..], fr)?;
+                let mut vals = Vec::new();
+                for a in &x[1..] {
+                    vals.push(self.eval_as(t, a, fr, gl, depth)?);
+                }
+                intr(b, t, &vals)
             }
             "call" => {
                 let f = *self.funcs.get(x[0].atom())?;
@@ -790,6 +857,67 @@ impl<'a> AstEval<'a> {
                     let v = self.eval_as(fr.ret, &x[0], fr, gl, depth)?;
                     Some(Flow::Ret(Some(v)))
                 }
+            }
+            "empty" => Some(Flow::Normal),
+            // a label reached in sequence: just the statement it labels
+            "case" => self.exec(&x[1], fr, gl, depth),
+            "default" => self.exec(&x[0], fr, gl, depth),
+            "switch" => {
+                if x[1].head() != "block" {
+                    return None;
+                }
+                // C: the controlling expression is promoted (a literal int is an int); each label's constant is
+                // converted to that type; control jumps to the matching label, else `default`, else past the block
+                let tc = self.type_of(&x[0], fr)?;
+                let t = if tc == T::Lit { T::Int } else { tc };
+                let v = self.eval_as(t, &x[0], fr, gl, depth)?;
+                enum Item<'s> {
+                    Case(&'s Sx),
+                    Default,
+                    Stmt(&'s Sx),
+                }
+                fn flat<'s>(s: &'s Sx, out: &mut Vec<Item<'s>>) {
+                    match s.head() {
+                        "case" => {
+                            out.push(Item::Case(&s.args()[0]));
+                            flat(&s.args()[1], out)
+                        }
+                        "default" => {
+                            out.push(Item::Default);
+                            flat(&s.args()[0], out)
+                        }
+                        "empty" => {}
+                        _ => out.push(Item::Stmt(s)),
+                    }
+                }
+                let mut items = Vec::new();
+                for s in x[1].args() {
+                    flat(s, &mut items);
+                }
+                let mut start = None;
+                for (i, it) in items.iter().enumerate() {
+                    if let Item::Case(e) = it {
+                        if self.eval_as(t, e, fr, gl, depth)? == v {
+                            start = Some(i);
+                            break;
+                        }
+                    }
+                }
+                if start.is_none() {
+                    start = items.iter().position(|it| matches!(it, Item::Default));
+                }
+                if let Some(i) = start {
+                    for it in &items[i..] {
+                        if let Item::Stmt(s) = it {
+                            match self.exec(s, fr, gl, depth)? {
+                                Flow::Normal => {}
+                                Flow::Break => return Some(Flow::Normal),
+                                other => return Some(other),
+                            }
+                        }
+                    }
+                }
+                Some(Flow::Normal)
             }
             _ => None,
         }
